@@ -144,6 +144,11 @@ func vfC09Gen(rt *rapid.T) vfC09Case {
 	for s := 0; s < nSessions; s++ {
 		opGen := rapid.Custom(func(rt *rapid.T) vfStoreOp {
 			if rapid.IntRange(0, 4).Draw(rt, "flush") == 0 {
+				if rapid.IntRange(0, 5).Draw(rt, "io_fault") == 0 {
+					// a Flush that meets an I/O fault (a directory sits where a segment file is to be
+					// created), followed by a Flush after the fault has gone
+					return vfStoreOp{Op: "blocked_flush", Count: rapid.IntRange(0, 3).Draw(rt, "blocked_file")}
+				}
 				return vfStoreOp{Op: "flush"}
 			}
 			if bulk && rapid.IntRange(0, 3).Draw(rt, "bulk_op") == 0 {
@@ -567,6 +572,40 @@ func vfC09Run(c vfC09Case, ctx *vfCtx) *vfViolation {
 				}
 				ctx.Class("bulk_operation")
 				ctx.Stat("bulk_vector_bytes", float64(op.Count*c.Conf.Dim*4))
+			case "blocked_flush":
+				names, _ := os.ReadDir(dir)
+				var have []string
+				for _, e := range names {
+					have = append(have, e.Name())
+				}
+				next := vfMaxSegmentID(have)
+				kindName := []string{"vector", "text", "metadata", "hybrid"}[op.Count%4]
+				var blockers []string
+				for k := uint64(1); k <= 6; k++ {
+					b := filepath.Join(dir, fmt.Sprintf("%s_%06d.bin.gz", kindName, next+k))
+					if os.Mkdir(b, 0o755) == nil {
+						blockers = append(blockers, b)
+					}
+				}
+				ferr := st.Flush()
+				for _, b := range blockers {
+					os.Remove(b)
+				}
+				ctx.ClassIf(ferr != nil, "flush_failed_on_an_injected_io_fault")
+				if ferr == nil {
+					// (nothing needed that file, or nothing was pending): acknowledged like any Flush
+					for id, d := range pending {
+						durable[id] = d
+					}
+					pending = map[uint32]*vfStoreDoc{}
+				}
+				// the fault is gone: what the next Flush / Close acknowledges must be on disk
+				if err := st.Flush(); err == nil {
+					for id, d := range pending {
+						durable[id] = d
+					}
+					pending = map[uint32]*vfStoreDoc{}
+				}
 			case "flush":
 				if err := st.Flush(); err != nil {
 					continue // not acknowledged
